@@ -47,6 +47,10 @@ POOL = [
      'increase bond order (c1, c2) decrease number of radical (c1) decrease number of radical (c2)}'),
     ('C=O-to-single', (6, 8, 2, 1), '[C:1]=[O:2]>>[C:1]-[O:2]',
      'rule dCO{reactant r{C? labeled c1 O? labeled o2 double bond to c1} decrease bond order (c1, o2) increase number of radical (c1) increase number of radical (o2)}'),
+    # three pattern atoms, the edit between two of them: the same atoms in another assignment are another match
+    ('CC-scission-next-to-C', (6, 6, 1, None, 6), '[C:1]-[C:2]-[C:3]>>[C:1].[C:2]-[C:3]',
+     'rule CCC{reactant r{C? labeled c1 C? labeled c2 single bond to c1 C? labeled c3 single bond to c2} break bond (c1, c2) '
+     'increase number of radical (c1) increase number of radical (c2)}'),
     ('HH-scission', (1, 1, 1, None), '[H:1][H:2]>>[H:1].[H:2]',
      'rule HH{reactant r{H? labeled h1 H? labeled h2 single bond to h1} break bond (h1, h2) increase number of radical (h1) increase number of radical (h2)}'),
     ('C#C-to-double', (6, 6, 3, 2), '[C:1]#[C:2]>>[C:1]=[C:2]',
@@ -144,6 +148,23 @@ def check_net(ctx, case):
         variants.append(('rules as text', list(seeds), list(texts)))
         if len(seeds) == 1:
             variants.append(('bare string seed, single rule not in a list' if len(texts) == 1 else 'bare string seed', seeds[0], texts[0] if len(texts) == 1 else list(texts)))
+        # the same rule OBJECTS on another seed afterwards (one they may not match at all): its own closure, nothing carried over
+        other = next(x for x in ('O', 'C', '[H][H]', 'CO', 'CC') if x not in seeds)
+        og = [rxnref.species_graph(Chem.AddHs(Chem.MolFromSmiles(other)))]
+        oclosure, _ = rxnref.closure(og, ref_rules)
+        counter[0] = 0
+        try:
+            got3 = GenerateRxnNet([other], rules)
+            k3 = collections.Counter(species_of(m) for m in got3)
+            ctx.count()
+            ctx.event('rule-objects-on-another-seed')
+            if set(k3) != set(oclosure) or any(n > 1 for n in k3.values()):
+                ctx.fail('network-depends-on-earlier-use-of-the-rule-objects', '[%s] the same rule objects then run on %r: %d species (%s), its closure has %d'
+                         % (label, other, len(k3), sorted(Chem.MolToSmiles(m) for m in got3)[:8], len(oclosure)))
+        except StepCap:
+            ctx.fail('does-not-terminate:other-seed', '[%s] then %r: more than %d rule applications' % (label, other, counter[1]))
+        except Exception as e:
+            ctx.fail('generation-raises:%s:other-seed' % type(e).__name__, '[%s] then seed %r raised %s: %s' % (label, other, type(e).__name__, str(e)[:160]))
         for name, sd, rl in variants:
             counter[0] = 0
             try:
